@@ -4,6 +4,7 @@ package handshake
 //symgo:param NCRQ quick=2 thorough=4
 //symgo:param NCRQA quick=5 thorough=8
 //symgo:param NCRQV quick=1 thorough=2
+//symgo:param NCRQODD quick=1 thorough=2
 
 import (
 	"github.com/pion/dtls/v3/pkg/crypto/clientcertificate"
@@ -201,7 +202,7 @@ func zzCRQEqual(a, b *MessageCertificateRequest) bool {
 	return r
 }
 
-// CertificateRequest (DTLS 1.2) whose declared supported_signature_algorithms length is ODD (1 or 3)
+// CertificateRequest (DTLS 1.2) whose declared supported_signature_algorithms length is ODD (1; thorough: 1 or 3)
 // and whose other vectors are empty / fit, length 6..8. A SignatureAndHashAlgorithm is 2 bytes, so the
 // last byte of an odd-length vector cannot form an element; the property requires that bytes beyond the
 // declared length are never consumed, i.e. an accepted input must yield only algorithms made of bytes
@@ -209,7 +210,7 @@ func zzCRQEqual(a, b *MessageCertificateRequest) bool {
 //
 //symgo:entry covers=crq_odd_accepted
 func zzCertificateRequestOddSigAlgs() {
-	odd := 1 + 2*zzsymChoice("odd", 2)
+	odd := 1 + 2*zzsymChoice("odd", zzsymParam("NCRQODD"))
 	// 00 | 00 odd | <odd bytes> | caLen(2) = 00 00
 	data := zzsymBytes("d", 5+odd)
 	zzsymAssume(data[0] == 0)
